@@ -226,6 +226,9 @@ inductive VerifierError where
   | layerCommitmentMismatch
   | numPositionEvaluationMismatch (positions evaluations : Nat)
   | unsupportedFoldingFactor (folding : Nat)
+  /-- not a `VerifierError`: `DefaultVerifierChannel::new` returns
+  `DeserializationError::InvalidValue("expected .. FRI layers, but the proof contains ..")` -/
+  | proofLayerCountMismatch (expected actual : Nat)
   deriving Repr, DecidableEq
 
 inductive Res (α : Type) where
@@ -391,17 +394,23 @@ def verify {F} (ops : FieldOps F) (v : Verifier F) (evaluations : List F) (posit
     | .err e => .err e
     | .abort => .abort
 
-/-- `FriVerifier::new` followed by `verify`: `gOf size` = `get_root_of_unity(ilog2(size))` embedded
-into the evaluation field -/
+/-- `DefaultVerifierChannel::new` (the part after parsing), `FriVerifier::new`, `verify`.
+The channel rejects a proof whose number of layers is not the number of commitments minus one
+(one commitment per layer plus the remainder's); `FriVerifier::new` derives the domain size from
+`(max_poly_degree + 1).next_power_of_two()`.  `gOf size` = `get_root_of_unity(ilog2(size))`
+embedded into the evaluation field -/
 def newAndVerify {F} (ops : FieldOps F) (o : FriOptions) (maxPolyDegree numPartitions : Nat)
     (gOf : Nat → F) (offset : F) (alphas : List F) (evaluations : List F) (positions : List Nat)
     (openings : List (LayerOpening F)) (remainder : List F) (remainderOk : Bool) : Res Unit :=
+  if openings.length + 1 ≠ alphas.length then
+    .err (.proofLayerCountMismatch (alphas.length - 1) openings.length)
+  else
   match newCheck o.folding maxPolyDegree alphas.length with
   | some e => .err e
   | none =>
     verify ops
-      { maxPolyDegree := maxPolyDegree, domainSize := nextPow2 maxPolyDegree * o.blowup,
-        g := gOf (nextPow2 maxPolyDegree * o.blowup), offset := offset, options := o,
+      { maxPolyDegree := maxPolyDegree, domainSize := nextPow2 (maxPolyDegree + 1) * o.blowup,
+        g := gOf (nextPow2 (maxPolyDegree + 1) * o.blowup), offset := offset, options := o,
         numPartitions := numPartitions, alphas := alphas }
       evaluations positions openings remainder remainderOk
 
